@@ -286,6 +286,15 @@ func (r *replicator) processHash(ctx context.Context, item processItem) ([]cid.C
 		return nil, fmt.Errorf("unable to fetch log: %w", err)
 	}
 
+	// the fetched entries are wrapped in a log that carries this store's id whatever they
+	// say themselves: an entry written for another log would later be merged into the
+	// store's heads
+	for _, e := range l.GetEntries().Slice() {
+		if e.GetLogID() != l.GetID() {
+			return nil, fmt.Errorf("entry %s belongs to another log", e.GetHash().String())
+		}
+	}
+
 	r.muBuffer.Lock()
 	r.buffer = append(r.buffer, l)
 	r.muBuffer.Unlock()
